@@ -134,12 +134,13 @@ def isInsufficient : Except Err State → Bool
 
 def baseBal (s : State) (g u : Nat) : Nat := s.L.bal (.base g) (U u)
 
-/-- **`op_moves_only_what_it_says` is false for a failing inbound bridge call** (`BridgeCallHandler`): the deposit
-stays with the callee contract and the refund is built from the refund address' own coins -/
-theorem bcinfail_takes_refund_from_refund_address :
+/-- a failing inbound bridge call (`BridgeCallHandler`, with the repair "failed inbound bridge call refunds the tokens
+it credited"): the credited coins are handed to the refund address and leave as an outgoing bridge call — neither
+the callee contract nor the refund address gains or loses anything -/
+theorem bcinfail_moves_nothing :
     let s := runOps cfgW (init ledgerW) [.deposit 0 1 0 10 false]
     (match step cfgW s (.bcinfail 0 0 [(1, 4)]) with
-     | .ok s' => decide (baseBal s' 1 0 + 4 = baseBal s 1 0 ∧ s'.L.bal (.base 1) badContract = 4)
+     | .ok s' => decide (baseBal s' 1 0 = baseBal s 1 0 ∧ s'.L.bal (.base 1) badContract = 0 ∧ inFlight s' 1 = 4)
      | .error _ => false) = true := by decide
 
 /-! ### withdrawability -/
